@@ -519,7 +519,13 @@ class PrepareAst:
                 self._context is ContextType.CONCURRENT
             ), "inline entity definition only allowed in concurrent contexts or always expression"
 
-            return out.Value(None, [])
+            return out.Value(
+                None,
+                [
+                    out.Assign(signal, value, AssignMode.NEXT, [])
+                    for signal, value in result.assignments
+                ],
+            )
 
         if result is NotImplemented:
             return out.Value(result, [])
